@@ -58,7 +58,7 @@ pub struct Col {
     viols: Vec<Value>,
     samples: Vec<Value>,
     stats: BTreeMap<&'static str, u64>,
-    per_repr: [u64; 5],
+    per_repr: [u64; 7],
 }
 
 fn violations_of(prop: &str, out: &ExecOut) -> Option<(String, String)> {
@@ -220,9 +220,9 @@ fn seqs(alpha: &[u8], max: usize) -> Vec<Vec<u8>> {
 /// all programs with 2 threads x <= `max_ops` ops on every representation
 pub fn exhaustive_set(max_ops: usize) -> Vec<Program> {
     let mut v = Vec::new();
-    for repr in 0..5u8 {
+    for repr in 0..7u8 {
         for odd in [false, true] {
-            if odd && repr != 0 {
+            if odd && !matches!(repr, 0 | 5 | 6) {
                 continue;
             }
             let hk = handle_kinds(repr);
@@ -275,6 +275,10 @@ pub fn curated() -> Vec<Program> {
         // owner: last reference released on another thread
         p(3, false, vec![(0, vec![2, 4]), (4, vec![3, 2, 4])], vec![]),
         p(3, false, vec![(1, vec![0, 2, 6]), (1, vec![0, 3, 4])], vec![6]),
+        // promotion race on a handle whose view does not start at the buffer start
+        p(5, false, vec![(1, vec![0, 2, 4]), (1, vec![0, 2, 6])], vec![2]),
+        p(5, true, vec![(1, vec![0, 2]), (1, vec![0, 2]), (1, vec![0, 2, 4])], vec![6]),
+        p(6, false, vec![(1, vec![0, 2, 7]), (1, vec![0, 2, 4])], vec![5]),
         // three threads
         p(0, false, vec![(1, vec![0, 2]), (1, vec![0, 4]), (1, vec![0, 6])], vec![5]),
         p(2, false, vec![(0, vec![2, 4]), (2, vec![8, 2]), (4, vec![3, 4, 4])], vec![]),
@@ -283,7 +287,7 @@ pub fn curated() -> Vec<Program> {
 }
 
 fn program_strategy() -> BoxedStrategy<Program> {
-    (0u8..5, any::<bool>(), 2usize..=3, proptest::collection::vec((0u8..5, proptest::collection::vec(0u8..12, 0..=3)), 3), proptest::collection::vec(prop_oneof![Just(2u8), Just(5u8), Just(6u8), Just(7u8)], 0..=1))
+    (0u8..7, any::<bool>(), 2usize..=3, proptest::collection::vec((0u8..5, proptest::collection::vec(0u8..12, 0..=3)), 3), proptest::collection::vec(prop_oneof![Just(2u8), Just(5u8), Just(6u8), Just(7u8)], 0..=1))
         .prop_map(|(repr, odd, nt, mut threads, main_final)| {
             threads.truncate(nt);
             let hk = handle_kinds(repr);
@@ -308,7 +312,7 @@ fn program_strategy() -> BoxedStrategy<Program> {
                 let alpha = ops_for(h);
                 out.push((h, ops.iter().map(|o| alpha[*o as usize % alpha.len()]).collect()));
             }
-            Program { repr, odd: odd && repr == 0, threads: out, main_final: if took_base { vec![] } else { main_final } }
+            Program { repr, odd: odd && matches!(repr, 0 | 5 | 6), threads: out, main_final: if took_base { vec![] } else { main_final } }
         })
         .boxed()
 }
@@ -327,7 +331,7 @@ pub fn main() -> i32 {
     let worker = args.u64("worker", 0);
     let workers = args.u64("workers", 1).max(1);
     let cap = args.u64("cap", 3000);
-    let mut col = Col { prop: prop.clone(), execs: 0, programs: 0, exhaustive_programs: 0, capped_programs: 0, nontriv: HashSet::new(), aborted: 0, viols: vec![], samples: vec![], stats: BTreeMap::new(), per_repr: [0; 5] };
+    let mut col = Col { prop: prop.clone(), execs: 0, programs: 0, exhaustive_programs: 0, capped_programs: 0, nontriv: HashSet::new(), aborted: 0, viols: vec![], samples: vec![], stats: BTreeMap::new(), per_repr: [0; 7] };
 
     if let Some(path) = args.kv.get("replay") {
         let v: Value = serde_json::from_str(&std::fs::read_to_string(path).unwrap_or_default()).unwrap_or(Value::Null);
@@ -370,7 +374,7 @@ pub fn main() -> i32 {
             continue;
         }
         col.programs += 1;
-        col.per_repr[p.repr as usize % 5] += 1;
+        col.per_repr[p.repr as usize % 7] += 1;
         ex_done += 1;
         if let Some((sched, v, mp)) = col.explore(p, cap, true) {
             col.record(p, &sched, v, "enumerated program x enumerated schedules", mp);
@@ -378,7 +382,7 @@ pub fn main() -> i32 {
             break;
         }
     }
-    exhaustive.push(json!({"space": format!("15 curated programs + all {} two-thread programs with <= 1 op per thread + every {}th of the {} two-thread programs with <= {} ops per thread, on 5 representations (promotable at even and odd addresses); per program all interleavings of atomic steps (stateless DFS), or all with <= 2 preemptions when the full set exceeds {} executions", n1, stride, ex_total, ex_ops, cap),
+    exhaustive.push(json!({"space": format!("18 curated programs + all {} two-thread programs with <= 1 op per thread + every {}th of the {} two-thread programs with <= {} ops per thread, on 5 representations (promotable at even and odd addresses); per program all interleavings of atomic steps (stateless DFS), or all with <= 2 preemptions when the full set exceeds {} executions", n1, stride, ex_total, ex_ops, cap),
         "histories_this_worker": ex_done, "histories_total": set.len(), "complete": !failed}));
 
     // ---- random larger programs (proptest, shrunk on failure)
@@ -399,7 +403,7 @@ pub fn main() -> i32 {
             let counting = !g.1;
             if counting {
                 g.0.programs += 1;
-                g.0.per_repr[p.repr as usize % 5] += 1;
+                g.0.per_repr[p.repr as usize % 7] += 1;
             }
             match g.0.explore(&p, rcap, counting) {
                 Some(_) => {
